@@ -119,6 +119,12 @@ def diff(expr: str, engine: str, mode: str = "equal", small: bool = False, strle
             except Exception:  # noqa: BLE001
                 return True
             return False
+        if mode == "equal-or-refused":
+            try:
+                got = sel.match(rec)
+            except Exception:  # noqa: BLE001 - refused: allowed for this program (never a different value)
+                return True
+            return bool(got) == exp
         return bool(sel.match(rec)) == exp
 
     return check
@@ -145,6 +151,8 @@ def obligations(tier, seed):
                 mode = "raises"
             if eng == "c" and "interp-only" in tags:
                 mode = "raises"
+            if eng == "i" and "may-reject" in tags and mode == "equal":
+                mode = "equal-or-refused"
             hunt = "hunt" in tags
             if hunt and tier == "quick" and idx % 8:
                 continue
@@ -201,6 +209,10 @@ def replay(res):
         bad = raised is None
         what = f"{engine}({a['expr']!r}) uses an operator outside the supported language but evaluated to {got} on {v} instead of being rejected"
         key = f"C07/outside/{a['engine']}/{a['expr']}"
+    elif a["mode"] == "equal-or-refused":
+        bad = raised is None and got != exp
+        what = f"{engine}({a['expr']!r}) on {v}: evaluated to {got}, Python meaning: {exp} (the program may be refused, but not evaluated to something else)"
+        key = f"C07/{a['engine']}/{a['expr']}"
     else:
         bad = raised is not None or got != exp
         what = f"{engine}({a['expr']!r}) on {v} (after matching a same-name record of another layout and {OTHER}): {'raised ' + raised if raised else got}, Python meaning: {exp}"
